@@ -109,7 +109,10 @@ Definition model_rescale (count : N) (n : N) (recorded : list (kgrange * ckdoc))
      | None => [23]
      | Some st =>
          flat_map (fun p => match p with Probe pre obs =>
-                      if list_eqb bn_eqb obs (scan_prefix st pre) then [] else [22] end)
+                      (if list_eqb bn_eqb obs (scan_prefix st pre) then [] else [22]) ++
+                      (* the lemma rescale_exact_partial leaves open, tested: outside the class the level search
+                         finds every table that holds the prefix *)
+                      (if list_eqb bn_eqb (scan_prefix st pre) (scan_prefix_all st pre) then [] else [24]) end)
                   (nth i probes [])
      end) (seq 0 (N.to_nat n)).
 
